@@ -242,3 +242,25 @@ PROPS["C11"] = dict(
           "non-trivial = as in the replayed program; distinct = hash of decoded case text"),
     assumptions=COMMON_ASSUME + ["the C03/C05/C07 programs are not replayed over fancy pointers (their harnesses build operands over raw storage)", "allocators with fancy *references* (proxy references) are out of scope"],
 )
+
+PROPS["C20"] = dict(
+    targets=[dict(name="C20default", src="vp/props/C20pos.cpp", maxlen=13 + 8*8),
+             dict(name="C20ndebug", src="vp/props/C20pos.cpp", defs=["NDEBUG"], maxlen=13 + 8*8, same_seed_as="C20default"),
+             dict(name="C20assertdisable", src="vp/props/C20pos.cpp", defs=["BOOST_MULTI_ASSERT_DISABLE"], maxlen=13 + 8*8, same_seed_as="C20default"),
+             dict(name="C20negative", src="vp/props/C20neg.cpp", maxlen=13 + 4*5, kinds=["rc"])],
+    quick=dict(cases=1200, floor=9000),
+    thorough=dict(cases=25000, floor=180000, fuzz=dict(time=240)),
+    level="exploration",
+    level_text=("Positive half: the generated programs of C01, C02 and the C04/C06 state machine are built three times (assertions on, -DNDEBUG, -DBOOST_MULTI_ASSERT_DISABLE) and run on the "
+                "same seeds against the same model oracles: a library assertion on a valid program aborts the default build, a result that depends on the configuration fails the oracle in one "
+                "build (additionally every other check of this suite runs assertion-enabled). Negative half: generated views x an index out of range at a generated depth of chained [] or of "
+                "call syntax, and generated destination views x sources whose extents differ in one dimension (leading or inner, or inner extents swapped with equal element count) for view=view "
+                "(lvalue, rvalue destination, const source), view=array and elements()=elements(); each case runs in a forked child of the assertion-enabled build and must die by SIGABRT with "
+                "an assertion message from a file under include/boost/multi, before any sanitizer report."),
+    technique="configuration-differential testing of generated valid programs + generated death tests in forked children (rapidcheck; libFuzzer for the positive half)",
+    rule=("positive: case = program selector + the case of that program (workers are split over the four harnesses; the three positive builds receive identical seeds); negative: case = root x D in 1..3 + "
+          "up to 5 view operations + kind of violation + depth/amount; non-trivial = positive: as in the replayed program; negative: the view was produced by >= 2 operations and the destination is a "
+          "mutable view; distinct = hash of decoded case text"),
+    assumptions=COMMON_ASSUME + ["cursors (home()) and elements()[k] are documented as unchecked and are not in the negative domain", "slicing / dropped / taked with out-of-range arguments are not in the must-assert set (the property speaks of indexing and assignment; 1-D sliced carries no bounds assertion)",
+                 "empty views are skipped in the negative half"],
+)
